@@ -199,7 +199,8 @@ impl Prop for C14Prop {
         l.segs = gen::gen_segs(rng, tier, &mix);
         let len = build_stream(&l.segs).stream.len();
         let nops = rng.below(4);
-        l.ops = gen::gen_push_ops(rng, len, nops);
+        let marks = gen::marks_of(&l.segs);
+        l.ops = gen::gen_push_ops_biased(rng, len, nops, &marks);
         if rng.chance(1, 5) {
             l.knobs.insert("dirty".into(), rng.range(1, 40) as i64);
         }
